@@ -3378,6 +3378,9 @@ class MasterSim(enginemod.Engine):
         if prop != 'C10':
             out |= {'crash_variants', 'crash_mid_publication',
                     'double_crash_variants'}
+        else:
+            # (the pending-start check is not part of a publication)
+            out |= {'pending_start_freeze'}
         if prop != 'C11':
             out |= {'restart_probes', 'restart_probes_strong',
                     'entries_strong'}
